@@ -731,6 +731,13 @@ func (m *Machine) harnessIntrinsic(name string, args []Value) (Value, bool) {
 		c := m.Ctx
 		m.Assume(c.And(c.Bin(sym.OpSle, c.BV(64, uint64(lo)), v), c.Bin(sym.OpSle, v, c.BV(64, uint64(hi)))))
 		return v, true
+	case "vChoice":
+		// structural case split enumerated by the engine (no constraint can make a case
+		// infeasible at this point, so no solver call is needed)
+		n := int(m.asInt(args[1]))
+		v := int64(m.Choose(n))
+		m.nondets = append(m.nondets, NondetRec{tag(), "int", v})
+		return v, true
 	case "vNondetBool":
 		v := m.freshVar("p", 0)
 		m.nondets = append(m.nondets, NondetRec{tag(), "bool", v})
